@@ -293,17 +293,6 @@ example : (ExtBlock.oneByte [.pad, .elem 3 [1, 2], .pad] (some (0, [0xBB, 0xCC, 
     (ExtBlock.twoByte 0 [.elem 200 [], .pad, .pad, .elem 1 [1, 2, 3]]).WF = true ∧
     (ExtBlock.legacy 0x1234 [1, 2, 3, 4]).WF = true := by decide
 
-theorem describeBlock_sound (bytes : Bytes) (b : ExtBlock) (h : ExtBlock.describe bytes = some b) :
-    b.WF = true ∧ b.encode = bytes := by
-  simp only [ExtBlock.describe] at h
-  split at h
-  · split at h
-    · rename_i hc
-      cases h
-      simpa using hc
-    · cases h
-  · cases h
-
 /-- `c03.view` on ARBITRARY bytes: whenever they are the image of a well-formed block (found by the
     specification's decoder, re-checked with `ExtBlock.encode`) with zero appbits, the view of the
     matching form satisfies sentence (3) -/
